@@ -214,6 +214,7 @@ func (c *SCIONClient) measureClockOffsetSCION(ctx context.Context, mtrcs *scionC
 	ntpreq.SetVersion(ntp.VersionMax)
 	ntpreq.SetMode(ntp.ModeClient)
 	if c.InterleavedMode && reference == c.prev.reference &&
+		c.prev.cRxTime != c.prev.cTxTime && // otherwise indistinguishable from a basic request
 		cTxTime0.Sub(ntp.TimeFromTime64(c.prev.cTxTime, cTxTime0)) < 3*time.Second {
 		interleavedReq = true
 		ntpreq.OriginTime = c.prev.sRxTime
